@@ -330,6 +330,9 @@ pub fn build(ctx: &Ctx) -> Property {
     add::<crate::backends::V3L>(&mut p, ctx);
     add::<crate::backends::V4>(&mut p, ctx);
     add::<crate::backends::V4S>(&mut p, ctx);
+    // "every value the signature scheme can produce, including r, s with leading zero bytes":
+    // aws-lc's ECDSA nonce is chosen through the cfg(paseto_verif) seam so that every width class is reached
+    p.subs.push(crate::c03::ecdsa_nonce_sub(ctx));
     p.assume("payload contents are one deterministic pattern per length (lengths, footers, assertions, keys and RNG answers are enumerated; contents are representative)");
     p.assume("aws-lc DRBG values and RSA-PSS salts (OsRng) cannot be chosen by the harness: those cases are repeated and only value-independent invariants are asserted");
     p
